@@ -17,6 +17,7 @@ let () =
         let nq = int_of_string nq and nu = int_of_string nu and np = int_of_string np in
         let f = List.map fl rest in
         let par = take np f in let q = take nq (drop np f) in let u = take nu (drop (np + nq) f) in
+        let q2 = take nq (drop (np + nq + nu) f) in let u2 = take nu (drop (np + 2 * nq + nu) f) in
         let m = { m_type = mtypes.(int_of_string ty); m_euler = (euler = "1"); m_par = par } in
         let rev = (rev = "1") in
         print_endline line;
@@ -26,6 +27,13 @@ let () =
         let xd = mob_X fops m q in
         (match mob_fitQ fops m xd with Some l -> Printf.printf "OUT MFITQ"; List.iter (fun x -> Printf.printf " %h" x) l; print_newline () | None -> ());
         (match mob_fitU fops m q (hu fops (mob_H fops m q) u) with Some l -> Printf.printf "OUT MFITU"; List.iter (fun x -> Printf.printf " %h" x) l; print_newline () | None -> ());
+        (* partial fits (public entry points incl. the reversal wrappers) from the second coordinate / speed set *)
+        let prl tag l = Printf.printf "OUT %s" tag; List.iter (fun x -> Printf.printf " %h" x) l; print_newline () in
+        let (xr, xp) = rep_X fops m rev q in let (vw, vv) = rep_V fops m rev q u in
+        prl "PFR" (rep_fitR fops m rev xr q2);
+        prl "PFT" (rep_fitT fops m rev xp q2);
+        prl "PFW" (rep_fitW fops m rev q vw u2);
+        prl "PFL" (rep_fitLV fops m rev q vv u2);
         print_endline "END"
     | _ -> ()
   done with End_of_file -> ()
